@@ -11,6 +11,7 @@ import XrayProofs.IntDigits
 import XrayProofs.IntText
 import XrayProofs.IntLib
 import XrayProofs.IntBits
+import XrayProofs.IntMultinom
 namespace XrayModel.C14
 open XrayModel LB
 
@@ -424,6 +425,23 @@ theorem bit_ops_comm (a b : LB) (ha : a.wf) (hb : b.wf) :
   exact ⟨wf_den_inj _ _ h1 h1' (by rw [e1, e1', Bits.iland_comm]),
     wf_den_inj _ _ h2 h2' (by rw [e2, e2', Bits.ilor_comm]),
     wf_den_inj _ _ h3 h3' (by rw [e3, e3', Bits.ilxor_comm])⟩
+
+/-! ### multinomial coefficient (loop of `int.rs` `add_int_multinom`) -/
+
+/-- `multinom(ks)` with non-negative entries (any number of them, any magnitude, any order, zeros included): a value `M`,
+canonical, with `M * Π kᵢ! = (Σ kᵢ)!` (`Multinom.prodF` / `Multinom.sumN` are the product of the factorials / the sum of
+the entries).  Covers the sort, the `take_while(is_positive)` cut, the in-place multiplications and the final division. -/
+theorem multinom_spec (s : List LB) (hs : ∀ x ∈ s, x.wf ∧ 0 ≤ x.den) :
+    ∃ r, IntB.multinom s = .int r ∧ r.wf ∧
+      ∃ M : Nat, r.den = (M : Int) ∧ M * Multinom.prodF s = (Multinom.sumN s).factorial :=
+  Multinom.multinom_spec s hs
+
+/-- a negative entry (among at least two entries) is the documented error value -/
+theorem multinom_negative (s : List LB) (hs : ∀ x ∈ s, x.wf) (hlen : 2 ≤ s.length) (hneg : ∃ x ∈ s, x.den < 0) :
+    IntB.multinom s = .err "sequence cannot have negative values" :=
+  Multinom.multinom_negative s hs hlen hneg
+
+example : IntB.multinom [short 3, short 0, short 2, short 5] = .int (short 2520) := by decide
 
 /-- non-vacuity: operands straddling 2^63 -/
 example : Correct (LB.mul (long 9223372036854775808) (short (-1))) (-9223372036854775808) :=
